@@ -273,6 +273,32 @@ let () =
                    if m <> int_of_string k then
                      fail p.pstep "C03" "prop"
                        (Printf.sprintf "node_count reports %s but the diagram of the handle has %d nodes" k m)
+                   else if n <= 6 && (kname = "bdd" || kname = "bcdd" || kname = "zbdd") then (
+                     (* C03, last clause: the reduced diagram of the handle's function under the snapshot's order,
+                        built from the value table by the extracted [build_kind] (coq/DD/BuildCanon.v) in a table
+                        of its own, has exactly node_count nodes; [canonical_count] = the same from [sem_edge] *)
+                     match Hashtbl.find_opt tts (slot_of a) with
+                     | None -> stat "unresolved" 1
+                     | Some ta ->
+                       check "C03"; stat "nc_canonical" 1;
+                       let sn = ps.snap in
+                       let f = Model.lvl_fun sn.Model.s_v2l (bf ta) in
+                       (match Model.build_kind sn.Model.s_kind sn.Model.s_v2l sn.Model.s_l2v f,
+                              Model.canonical_count sn e with
+                        | Some (s', e'), Some cc ->
+                          let built = int_of_n (Model.count_reach s' e') in
+                          stat "nc_canonical_nodes" built;
+                          if not (Model.wf_full_b s') then
+                            fail p.pstep "C03" "corr" "the diagram built from the value table is not well-formed"
+                          else if built <> int_of_string k then
+                            fail p.pstep "C03" "prop"
+                              (Printf.sprintf "node_count reports %s but the reduced diagram of the handle's function %s under the current order has %d nodes"
+                                 k (show_vt ta) built)
+                          else if int_of_n cc <> built then
+                            fail p.pstep "C03" "corr"
+                              (Printf.sprintf "canonical_count (from sem_edge) = %d differs from the diagram built from the value table (%d nodes)"
+                                 (int_of_n cc) built)
+                        | _ -> fail p.pstep "C03" "corr" "build_kind / canonical_count undefined on a Boolean-kind snapshot"))
                  | _ -> stat "unresolved" 1)
               | [ "EQ"; a; b ] ->
                 (match get a, get b, List.assoc_opt (slot_of a) ps.handles, List.assoc_opt (slot_of b) ps.handles with
